@@ -279,28 +279,29 @@ def trace_phase(chk, tb, rng, quick, L, RR):
         if kind == "psi":
             x = R.gen_psi(rng, n, 1)[0]
             t = L.vec_tensor(x)
-            call = lambda: un.rotate_psi(state, letters, space, unitaries=full, psi=t)     # noqa: E731
+            call = lambda b: un.rotate_psi(state, b, space, unitaries=full, psi=t)     # noqa: E731
         else:
             x = R.gen_rho(rng, n, 1)[0]
             t = L.mat_tensor(x)
-            call = lambda: un.rotate_rho(state, letters, space, unitaries=full, rho=t)     # noqa: E731
+            call = lambda b: un.rotate_rho(state, b, space, unitaries=full, rho=t)     # noqa: E731
         try:
-            tr, prob = RR.build_trace(kind, letters, x, call, full, fac)
+            trs, prob = RR.build_trace(kind, letters, x, call, fac)
         except common.MachineryError:
             raise
         except Exception as ex:
             chk.violation("exception:trace:%s:%s" % (kind, type(ex).__name__),
                           dict(basis=letters, x=x, error=repr(ex), where=traceback.format_exc()[-1500:]))
             continue
-        if tr is None:
+        if trs is None:
             chk.violation("trace:non-integer:" + kind, dict(basis=letters, x=x, problem=prob))
             continue
-        j = RR.malformed(tr)
-        if j is not None:
-            chk.violation("trace:malformed:" + kind, dict(basis=letters, event=j))
-            continue
-        lines.append(tr)
-        meta.append((kind, letters))
+        for tr in trs:
+            j = RR.malformed(tr)
+            if j is not None:
+                chk.violation("trace:malformed:" + kind, dict(basis=letters, event=j))
+                continue
+            lines.append(tr)
+            meta.append((kind, "".join(tr["basis"])))
     if not lines:
         return
     # negative controls: one corrupted intermediate, one corrupted result, one run with the sites swapped
@@ -312,7 +313,7 @@ def trace_phase(chk, tb, rng, quick, L, RR):
     c2 = copy.deepcopy(next(t for t in lines if t["kind"] == "rho" and len(t["basis"]) >= 2))
     c2["fin"][0][1][1] += 1
     c3 = copy.deepcopy(donor)
-    c3["ev"][0]["s"], c3["ev"][1]["s"] = c3["ev"][1]["s"], c3["ev"][0]["s"]
+    c3["ev"][0], c3["ev"][1] = c3["ev"][1], c3["ev"][0]
     ctl = [("trace with a bumped intermediate accepted", c1), ("trace with a bumped rotate_rho result accepted", c2),
            ("trace with two sites visited in the other order accepted", c3)]
     res, acc, matched = RR.validate(lines + [c[1] for c in ctl], timeout=1500)
@@ -330,7 +331,7 @@ def trace_phase(chk, tb, rng, quick, L, RR):
             nxt = ev[matched[i]] if matched[i] < len(ev) else dict(e="result", y=lines[i]["fin"])
             chk.violation("trace:rejected:%s:%s" % (meta[i][0], nxt["e"]),
                           dict(basis=meta[i][1], x=lines[i]["x"], matched_prefix=matched[i], next_event=nxt))
-    chk.sample(dict(trace_basis=lines[0]["basis"], events=[(e["e"], e.get("s"), e.get("r"), e.get("b")) for e in lines[0]["ev"]]))
+    chk.sample(dict(trace_basis=lines[0]["basis"], mode=lines[0]["mode"], events=[(e["e"], e.get("s"), e.get("b")) for e in lines[0]["ev"]]))
 
 
 def comparator_controls(chk, tb, cases, rng, RP):
